@@ -94,6 +94,14 @@ def rand_scalar(rng):
     return dbl(m, e)
 
 
+def dbl_huge(tok):
+    """a double token whose magnitude is within a factor 10^9 of DBL_MAX"""
+    if not (tok.startswith('d') and '_' in tok):
+        return False
+    m, e = tok[1:].split('_')
+    return abs(int(m)).bit_length() + int(e) > 990
+
+
 def rand_str(rng):
     if rng.random() < 0.7:
         return rng.choice(STRS)
@@ -300,12 +308,15 @@ def history(rng, k, n, nested=0.5, invalid=0.03, aliasing=True, special=0.0):
             if i < k and i != j:
                 sh.v[i] = sh.v[j]
         elif r < 0.62:
+            # the %f text of a double near DBL_MAX followed by an exponent suffix would be a decimal string beyond the binary64
+            # range (strtod overflows to inf; outside the reference parse_dbl, like BIG_EXP): no exponent suffix there
+            huge = tgt is not None and ((tgt[0] == 's' and dbl_huge(tgt[1])) or (tgt[0] == 'str' and tgt[1] == '?huge'))
             if rng.random() < 0.4:
                 ops.append('strtouch %d %s' % (i, path_tok(p)))
             else:
-                ops.append('strapp %d %s %s' % (i, path_tok(p), hx(rng.choice(APPS))))
+                ops.append('strapp %d %s %s' % (i, path_tok(p), hx(rng.choice([a for a in APPS if 'e' not in a] if huge else APPS))))
             if i < k:
-                sh.v[i], _ = sh.upd(p, lambda v: v if v[0] == 'str' else ('str', '?'), sh.v[i])
+                sh.v[i], _ = sh.upd(p, lambda v: v if v[0] == 'str' else ('str', '?huge' if huge else '?'), sh.v[i])
         elif r < 0.71 and aliasing and i < k:
             # assignment from a reference into a payload, mostly into the assigned Variant's own payload
             if rng.random() < 0.7:
@@ -863,6 +874,8 @@ class C07(Check):
                   'the mutable accessor, which is not run on special values). The sign of a stored zero is observed (dump, toDouble, %f). '
                   'NaN (excluded by the property) is run at root level only: the property oracle expects nothing of a variable holding it, '
                   'IEEE behaviour is compared on the model side. Float->integer casts that are undefined in C++ are not observed. '
+                  'Decimal strings whose value lies outside the normal binary64 range (exponents of 3+ digits; the %f text of a double '
+                  'near DBL_MAX followed by an appended exponent) are not generated: the reference strtod has no overflow / subnormal range. '
                   'Validated by the correspondence run only: (a) that the reference functions shared by Model and Spec - glibc '
                   'strtol/strtoul/strtod, printf %d/%u/%lld/%llu/%f, int64->double rounding, String::toBool - are what libc and String do '
                   '(every alternative is run against every other; stream eqwrap for values that differ by multiples of 2^32/2^64). The '
